@@ -194,11 +194,22 @@ func (d *Disk) applyWrite(off int64, b []byte) {
 	}
 }
 
-func (d *Disk) refreshViews() {
+// refreshViews re-synchronises the byte range [from, to) of all views with the
+// file contents (bytes past EOF are poison). Only the given range is touched:
+// readers of other parts of a view (e.g. the active header page) must not see
+// a write to their memory.
+func (d *Disk) refreshViews(from, to int) {
 	for _, v := range d.views {
-		n := copy(v, d.data)
-		for i := n; i < len(v); i++ {
-			v[i] = Poison
+		hi := to
+		if hi > len(v) {
+			hi = len(v)
+		}
+		for i := from; i < hi; i++ {
+			if i < len(d.data) {
+				v[i] = d.data[i]
+			} else {
+				v[i] = Poison
+			}
 		}
 	}
 }
@@ -220,7 +231,7 @@ func (d *Disk) WriteAt(b []byte, off int64) (int, error) {
 		oldLen := len(d.data)
 		d.applyWrite(off, b[:n])
 		if oldLen < int(off) {
-			d.refreshViews()
+			d.refreshViews(oldLen, int(off))
 		}
 		d.log(Op{Kind: OpWrite, Off: off, Len: n, Data: append([]byte(nil), b[:n]...), Err: true})
 		return n, ErrInjected
@@ -228,7 +239,7 @@ func (d *Disk) WriteAt(b []byte, off int64) (int, error) {
 	oldLen := len(d.data)
 	d.applyWrite(off, b)
 	if oldLen < int(off) {
-		d.refreshViews()
+		d.refreshViews(oldLen, int(off))
 	}
 	d.log(Op{Kind: OpWrite, Off: off, Len: len(b), Data: append([]byte(nil), b...)})
 	return len(b), nil
@@ -268,8 +279,10 @@ func (d *Disk) Truncate(sz int64) error {
 		d.log(Op{Kind: OpTruncate, Size: sz, Err: true})
 		return ErrInjected
 	}
+	oldLen := len(d.data)
 	if sz <= int64(len(d.data)) {
 		d.data = d.data[:sz:sz]
+		d.refreshViews(int(sz), oldLen)
 	} else {
 		n := make([]byte, sz)
 		copy(n, d.data)
@@ -277,8 +290,8 @@ func (d *Disk) Truncate(sz int64) error {
 		if sz > d.MaxExtent {
 			d.MaxExtent = sz
 		}
+		d.refreshViews(oldLen, int(sz))
 	}
-	d.refreshViews()
 	d.log(Op{Kind: OpTruncate, Size: sz})
 	return nil
 }
